@@ -29,6 +29,7 @@ type strTok struct {
 	lit  string
 	term *Term
 	pre  string // preimage of a hash token
+	known, symbolic bool
 }
 
 const (
@@ -56,6 +57,19 @@ func isHexRun64(s string, i int) bool {
 	return true
 }
 
+// hexRunAt returns the length of the maximal hex run that starts exactly at i (0 if i is
+// inside a run or not hex).
+func hexRunAt(s string, i int) int {
+	if i >= len(s) || !isHexByte(s[i]) || (i > 0 && isHexByte(s[i-1])) {
+		return 0
+	}
+	j := i
+	for j < len(s) && isHexByte(s[j]) {
+		j++
+	}
+	return j - i
+}
+
 func isHexByte(c byte) bool { return c >= '0' && c <= '9' || c >= 'a' && c <= 'f' }
 
 func hasSymContent(p *Path, s string) bool {
@@ -66,11 +80,15 @@ func hasSymContent(p *Path, s string) bool {
 		return false
 	}
 	for i := 0; i+64 <= len(s); i++ {
-		if isHexRun64(s, i) {
-			if pre, ok := p.hashPre[s[i:i+64]]; ok && hasSymContent(p, pre) {
-				return true
+		if n := hexRunAt(s, i); n > 0 {
+			if n%64 == 0 {
+				for k := i; k < i+n; k += 64 {
+					if pre, ok := p.hashPre[s[k:k+64]]; ok && hasSymContent(p, pre) {
+						return true
+					}
+				}
 			}
-			i += 63
+			i += n - 1
 		}
 	}
 	return false
@@ -108,16 +126,18 @@ func tokenize(p *Path, s string) []strTok {
 				}
 			}
 		}
-		if isHexByte(s[i]) && isHexRun64(s, i) {
-			h := s[i : i+64]
-			if pre, ok := p.hashPre[h]; ok && hasSymContent(p, pre) {
+		if n := hexRunAt(s, i); n > 0 {
+			if n%64 == 0 {
 				flush()
-				out = append(out, strTok{kind: tokHash, lit: h, pre: pre})
-				i += 64
-				continue
+				for k := i; k < i+n; k += 64 {
+					h := s[k : k+64]
+					pre, ok := p.hashPre[h]
+					out = append(out, strTok{kind: tokHash, lit: h, pre: pre, known: ok, symbolic: ok && hasSymContent(p, pre)})
+				}
+			} else {
+				lit.WriteString(s[i : i+n])
 			}
-			lit.WriteString(h)
-			i += 64
+			i += n
 			continue
 		}
 		lit.WriteByte(s[i])
@@ -267,32 +287,41 @@ func strEqTerm(p *Path, a, b string, depth int) *Term {
 			}
 		case x.kind == tokHash && y.kind == tokHash:
 			if x.lit != y.lit {
-				res = st.And(res, strEqTerm(p, x.pre, y.pre, depth+1))
+				if x.known && y.known && (x.symbolic || y.symbolic) {
+					res = st.And(res, strEqTerm(p, x.pre, y.pre, depth+1))
+				} else {
+					return st.Bool(false) // distinct constants, or assumption (1)
+				}
 			}
 			ia++
 			ib++
 		case x.kind == tokHash && y.kind == tokLit, x.kind == tokLit && y.kind == tokHash:
-			h, lit, off := x, y.lit, ob
+			lit, off := y.lit, ob
+			litToks, li, hashToks, hi := tb, ib, ta, ia
 			if x.kind == tokLit {
-				h, lit, off = y, x.lit, oa
+				lit, off = x.lit, oa
+				litToks, li, hashToks, hi = ta, ia, tb, ib
 			}
-			if !isHexRun64(lit, off) {
-				// a hash never equals text that is not a 64-hex run
+			// the literal side is not a run of whole hashes here (those were split into hash
+			// tokens): compare the lengths of the two maximal hex runs
+			r := 0
+			for off+r < len(lit) && isHexByte(lit[off+r]) {
+				r++
+			}
+			if off+r == len(lit) && li+1 < len(litToks) && litToks[li+1].kind == tokSym {
+				panic(strAmbiguous{"hex text continues into a symbolic number"})
+			}
+			m := 0
+			for hi+m < len(hashToks) && hashToks[hi+m].kind == tokHash {
+				m++
+			}
+			if hi+m < len(hashToks) && hashToks[hi+m].kind == tokSym {
+				panic(strAmbiguous{"a hash is followed by a symbolic number without a separator"})
+			}
+			if r != 64*m {
 				return st.Bool(false)
 			}
-			c := lit[off : off+64]
-			if pre, ok := p.hashPre[c]; ok {
-				res = st.And(res, strEqTerm(p, h.pre, pre, depth+1))
-			} else {
-				return st.Bool(false) // assumption (1)
-			}
-			if x.kind == tokLit {
-				oa += 64
-				ib++
-			} else {
-				ob += 64
-				ia++
-			}
+			panic(strAmbiguous{"a hash aligns with the middle of a hex run"})
 		default: // hash vs symbolic decimal: a decimal of <= 20 digits is never a 64-hex string
 			return st.Bool(false)
 		}
